@@ -130,10 +130,12 @@ class Exec(ExprMixin, StmtMixin, CallMixin):
             q = p.fork(); q.env[a[0].id] = VInt(j); self.qvars.append(j)
             try:
                 pat = None
-                if len(a) in (4, 5):
+                if len(a) in (4, 5, 6):
                     lo = self.ev(a[1], p).t; hi = self.ev(a[2], p).t; rng = z3.And(lo <= j, j < hi); body = self.truthy(self.ev(a[3], q))
-                    if len(a) == 5:          # explicit trigger term: forall(i, lo, hi, body, trigger)   (an instantiation hint only)
-                        tv = self.ev(a[4], q); pat = [tv.arr if isinstance(tv, VList) else tv.t]
+                    if len(a) >= 5:          # explicit trigger term(s): forall(i, lo, hi, body, trigger[, alternative trigger])   (instantiation hints only)
+                        pat = []
+                        for tx in a[4:]:
+                            tv = self.ev(tx, q); pat.append(tv.arr if isinstance(tv, VList) else tv.t)
                 elif len(a) in (2, 3) and n == 'forall' or len(a) == 2:
                     rng = z3.BoolVal(True); body = self.truthy(self.ev(a[1], q))
                     if len(a) == 3:
@@ -370,6 +372,7 @@ def wf(v):
             out.append(z3.ForAll([x], z3.Implies(z3.And(0 <= x, x < v.len), wf(e))))
         return z3.And(*out)
     if isinstance(v, VTuple): return z3.And(*[wf(x) for x in v.items]) if v.items else z3.BoolVal(True)
+    if isinstance(v, VText): return Text.nlines(v.t) >= 0
     return z3.BoolVal(True)
 
 
@@ -382,6 +385,7 @@ def _frame_check(self, pre, q, fn):
         if isinstance(a, (VInt, VBool, VReal, VRef, VOpt, VTok, VPy, VLpVar, VAff)): return a.t == b.t if not a.t.eq(b.t) else z3.BoolVal(True)
         if isinstance(a, VList): return z3.And(a.len == b.len, a.arr == b.arr) if not (a.len.eq(b.len) and a.arr.eq(b.arr)) else z3.BoolVal(True)
         if isinstance(a, VStr): return z3.BoolVal(a.atoms == b.atoms)
+        if isinstance(a, VText): return a.t == b.t
         if isinstance(a, (VNone, VExt, VObj, VDict, VEnum)): return z3.BoolVal(True) if (isinstance(a, VNone) or a is b or getattr(a, 'oid', None) == getattr(b, 'oid', 0) or isinstance(a, (VExt, VDict, VEnum))) else z3.BoolVal(False)
         return z3.BoolVal(False)
     for oid, flds in pre.objs.items():
@@ -543,6 +547,7 @@ def named_of_kind(name, k):
     if isinstance(k, tuple) and k[0] == 'list':
         return VList(z3.Int(name + '.len'), z3.Array(name + '.arr', I, sort_of(k[1])), k[1])
     if isinstance(k, tuple) and k[0] == 'str': return VStr([('opaque', name)])
+    if k == 'text': return VText(z3.Const(name, Text))
     if isinstance(k, tuple) and k[0] == 'joinstr': return fresh_of_kind(name, k)
     if isinstance(k, tuple) and k[0] == 'map': return VMap(z3.Array(name + '.has', I, z3.ArraySort(I, B)), z3.Array(name + '.val', I, z3.ArraySort(I, I)))
     raise StaleContract('unknown declared kind %r for %s' % (k, name))
@@ -569,6 +574,7 @@ def _verify_lemma(self, name, L):
     self.defs = dict(self.global_defs); self.defs.update(L.get('defs', {}))
     p = Path()
     for n, k in L.get('vars', {}).items(): p.env[n] = self.make_value(k, n, p)
+    self.named_facts['wf'] = z3.And(*p.pc) if p.pc else z3.BoolVal(True)      # list lengths of the lemma's variables are non-negative
     if L.get('identify_solution'):
         # T3 made explicit: "let nu be the valuation the solver reported" - solved(v) and nu(v) denote the same value in this lemma
         from . import models_lp
@@ -606,7 +612,10 @@ def _verify_lemma(self, name, L):
         try: return self.spec_eval(cl.src, q)
         finally: self.defs = own_defs; self.param_cache = saved_cache
     for h in L.get('hyps', []):
-        for cl in clauses(h): p.assume(ev_clause(cl))
+        for cl in clauses(h):
+            t = ev_clause(cl); p.assume(t)
+            if cl.nm is not None:      # named hypotheses can be cited by goals that are proved from named facts only
+                self.named_facts[cl.nm if cl.q is p else '%s:%s' % (h[0], cl.nm)] = t
     self.vcs.append(VC('cover/hyps', list(p.pc), z3.BoolVal(False), 'cover', 0, self.fn.key, expect='sat'))
     for u in L.get('uses', []):
         mode = u[2] if len(u) > 2 else ''
@@ -628,8 +637,14 @@ def _verify_lemma(self, name, L):
             for cl in clauses(g[1]): p.assume(ev_clause(cl))
             continue
         if isinstance(g, tuple) and len(g) >= 3 and g[0] in ('requires', 'ensures') and isinstance(g[2], dict):
+            facts = g[5] if len(g) > 5 else {}          # {clause name: [named facts]}: prove that clause from these facts only
             for cl in clauses(g):
-                self.vcs.append(VC('goal/%s/%s' % (g[1].split(':')[1], cl.nm), list(p.pc), ev_clause(cl), 'lemma', 0, self.fn.key))
+                hy = list(p.pc)
+                if cl.nm in facts:
+                    missing = [f for f in facts[cl.nm] if f not in self.named_facts]
+                    if missing: raise StaleContract('lemma %s: unknown fact %s' % (name, missing))
+                    hy = [self.named_facts[f] for f in facts[cl.nm]]
+                self.vcs.append(VC('goal/%s/%s' % (g[1].split(':')[1], cl.nm), hy, ev_clause(cl), 'lemma', 0, self.fn.key))
         else:
             nm, src = g[0], g[1]
             t = self.spec_eval(src, p)
